@@ -6,7 +6,7 @@
 //
 //	c31 asm   <in.wat> <out.wasm>                 assemble with the repo's own assembler (watutil.Wat2Wasm)
 //	c31 build <file.wa|.wa.go> <outprefix> [vname] api.BuildFile + Wat2Wasm -> <outprefix>.wat/.wasm/.fset/.main
-//	c31 exec  <engine> <wasm>                     stdin: protocol lines of gen/instmod.py; one output line each
+//	c31 exec  <engine> <wasm> <growwasm>          stdin: protocol lines of gen/instmod.py; one output line each
 //	c31 run   <engine> <wasm> <fset> <mainFunc>   runs main like api.RunCode; prints "<status> <hex stdout>"
 //
 // engine: emb (wazero.BuildModule, i.e. what wa uses) | interpreter | compiler
@@ -145,24 +145,37 @@ func (p *inst) call(name, sig string, args []uint64) string {
 	}
 	rs := sig[strings.IndexByte(sig, ':')+1:]
 	out := "ok"
+	dirty := false
 	for i, r := range res {
 		if i < len(rs) && rs[i] == 'i' {
 			if r>>32 != 0 {
-				return fmt.Sprintf("DIRTY-i32-result %x", r) // upper half of an i32 result must be zero
+				// The uint64 that carries an i32 result has a non-zero upper half.  The WebAssembly value is the
+				// low 32 bits (api.DecodeI32); reported as a marker so the check can count it, compared masked.
+				dirty = true
+				r &= 0xffffffff
 			}
 		}
 		out += fmt.Sprintf(" %x", r)
 	}
+	if dirty {
+		out += " !dirty"
+	}
 	return out
 }
 
-func execLoop(engine, wasmFile string) {
+func execLoop(engine, wasmFile, growFile string) {
 	wasm, err := os.ReadFile(wasmFile)
 	if err != nil {
 		fmt.Fprintln(os.Stderr, err)
 		os.Exit(2)
 	}
-	p := &inst{engine: engine, wasm: wasm}
+	growWasm, err := os.ReadFile(growFile)
+	if err != nil {
+		fmt.Fprintln(os.Stderr, err)
+		os.Exit(2)
+	}
+	main := &inst{engine: engine, wasm: wasm}
+	p := main
 	if err := p.fresh(); err != nil {
 		fmt.Fprintln(os.Stderr, "instantiate:", err)
 		os.Exit(2)
@@ -196,9 +209,11 @@ func execLoop(engine, wasmFile string) {
 			if !ok {
 				return "bad-op"
 			}
+			p := &inst{engine: engine, wasm: growWasm} // fresh instance of the small grow module per line
 			if err := p.fresh(); err != nil {
 				return "ERR " + err.Error()
 			}
+			defer p.m.Close()
 			out := "g"
 			for _, d := range ds {
 				out += " [" + p.call("memory.grow", "i:i", []uint64{d})
@@ -207,15 +222,12 @@ func execLoop(engine, wasmFile string) {
 				var pages uint64
 				fmt.Sscanf(sz, "ok %x", &pages)
 				if pages > 0 {
-					out += " " + p.call("i32.store8@0", "ii:", []uint64{pages*page - 1, 0xab})
-					out += " " + p.call("i32.load8_u@0", "i:i", []uint64{pages*page - 1})
+					out += " " + p.call("i32.store8@0", "ii:", []uint64{(pages*page - 1) & 0xffffffff, 0xab})
+					out += " " + p.call("i32.load8_u@0", "i:i", []uint64{(pages*page - 1) & 0xffffffff})
 				}
-				out += " " + p.call("i32.store8@0", "ii:", []uint64{pages * page, 0xcd})
-				out += " " + p.call("i32.load8_u@1", "i:i", []uint64{pages*page - 1})
+				out += " " + p.call("i32.store8@0", "ii:", []uint64{(pages * page) & 0xffffffff, 0xcd})
+				out += " " + p.call("i32.load8_u@1", "i:i", []uint64{(pages*page - 1) & 0xffffffff})
 				out += " " + p.memHash() + "]"
-			}
-			if err := p.fresh(); err != nil {
-				return "ERR " + err.Error()
 			}
 			return out
 		}
@@ -271,7 +283,7 @@ func main() {
 		os.WriteFile(pre+".main", []byte(mainFunc), 0o644)
 		fmt.Println("ok", mainFunc, len(wat), len(wasm))
 	case "exec":
-		execLoop(os.Args[2], os.Args[3])
+		execLoop(os.Args[2], os.Args[3], os.Args[4])
 	case "run":
 		wasm, err := os.ReadFile(os.Args[3])
 		if err != nil {
